@@ -77,3 +77,34 @@ Example C13_nonvacuous :
   opens (create KBytes 4) = Ok [Rejected; Accepted; Rejected; Rejected; Rejected] /\
   opens (create KU64 1) = Ok [Rejected; Rejected; Rejected; Accepted; Accepted].
 Proof. split; [exact open_bytes_map|exact open_u64_map]. Qed.
+
+(** AT BYTE LEVEL (Io.v: [Io.open_existing] performs the real sequence of seeks and reads of the
+    three open_with_params - end-of-file seek, signature1, signature2, one u64 per file, the bucket
+    count read a second time - and is compared with the crate's fine I/O trace event by event, for
+    accepted and for rejected opens).  A rejected open - wrong type, or any single-byte change of
+    the 16 signature bytes of any file - is a read-only step: the three byte strings are unchanged
+    and every logged event is a read or a seek inside the file.  "A rejected open leaves all files
+    byte-for-byte unchanged" as a theorem about the I/O actually performed. *)
+From Aby Require Import Load Load_all Io Io_base Io_htx Io_open.
+Import Io.
+
+Theorem C13_byte_level_wrong_type_rejected_without_a_write : forall s t h k v st0,
+  wf_state s -> fits64 s -> render s = Ok (h, k, v) -> st_images st0 = (h, k, v) ->
+  sig_of t <> sig_of (kt s) ->
+  exists st1, open_existing t st0 = Ok (RejectedAt FKey, st1) /\ ro_step st0 st1 /\ st_images st1 = (h, k, v).
+Proof. exact Io_open_wrong_type_rejected. Qed.
+
+Theorem C13_byte_level_mutated_signature_rejected_without_a_write : forall s h k v f i b st0,
+  wf_state s -> fits64 s -> render s = Ok (h, k, v) -> (i < 16)%nat ->
+  Open.get_file f (h, k, v) !! i <> Some b ->
+  st_images st0 = mutate f i b (h, k, v) ->
+  exists st1, open_existing (kt s) st0 = Ok (RejectedAt (fid_of f), st1) /\ ro_step st0 st1 /\
+    st_images st1 = mutate f i b (h, k, v).
+Proof. exact Io_open_mutated_rejected. Qed.
+
+(** every open of existing files, accepted or not, only looks *)
+Theorem C13_byte_level_open_only_looks : forall s t h k v st0 o st1,
+  wf_state s -> fits64 s -> render s = Ok (h, k, v) -> st_images st0 = (h, k, v) ->
+  open_existing t st0 = Ok (o, st1) ->
+  ro_step st0 st1 /\ st_images st1 = (h, k, v).
+Proof. exact Io_open_readonly. Qed.
